@@ -366,7 +366,7 @@ V("be-benign-extra-row-entry", ["C09"], B, "benign", (CF, "        \"erf\": \"er
 
 # ---- C01 / C04 / C10 / C11 ---------------------------------------------------------------------------------
 AN = "ffcx/analysis.py"
-PL = ["PIPE-FLAGS", "FACT-LAWS", "RULE-COHERENCE", "SCOPE-KEY", "QMETA-FLOW", "OPT-GATE", "EXPR-LAYOUT", "RULE-SCOPED-NAMES", "STALE-LOOPVAR"]
+PL = ["PIPE-FLAGS", "FACT-LAWS", "RULE-COHERENCE", "SCOPE-KEY", "QMETA-FLOW", "QRULE-GROUP", "QUAD-FAMILY", "OPT-GATE", "EXPR-LAYOUT", "RULE-SCOPED-NAMES", "STALE-LOOPVAR"]
 V("pipe-no-integral-scaling", ["C01"], PL, "fire", (AN, "        do_apply_integral_scaling=True,", "        do_apply_integral_scaling=False,"))
 V("pipe-no-pullbacks", ["C01"], PL, "fire", (AN, "        do_apply_function_pullbacks=True,\n", ""))
 V("pipe-jacobian-not-preserved", ["C01"], PL, "fire", (AN, "        preserve_geometry_types=(ufl.classes.Jacobian,),\n        do_apply_restrictions=True,", "        preserve_geometry_types=(),\n        do_apply_restrictions=True,"))
